@@ -498,23 +498,28 @@ pub fn generate(rs: u64, focus: &str) -> Trace {
     let nthreads = if crate::gen::thorough() { 2 + g.rng.weighted(&[35, 35, 30]) } else { 2 + g.rng.weighted(&[55, 30, 15]) };
     let mut threads: Vec<Vec<Op>> = vec![vec![]; nthreads];
     let scenario = match focus {
-        "C04" => g.rng.weighted(&[5, 5, 0, 10, 0, 10, 70, 0, 0, 0, 0, 0, 0]),
-        "C15" => g.rng.weighted(&[5, 5, 5, 10, 0, 30, 35, 10, 0, 0, 0, 0, 0]),
-        "C18" => g.rng.weighted(&[0, 0, 0, 0, 25, 10, 0, 0, 35, 0, 30, 0, 0]),
-        "C09" => g.rng.weighted(&[5, 75, 0, 5, 0, 15, 0, 0, 0, 0, 0, 0, 0]),
-        "C10" => g.rng.weighted(&[0, 0, 10, 0, 0, 20, 0, 70, 0, 0, 0, 0, 0]),
-        "C11" => g.rng.weighted(&[0, 5, 60, 0, 0, 20, 0, 15, 0, 0, 0, 0, 0]),
-        "C05" => g.rng.weighted(&[0, 30, 0, 30, 20, 20, 0, 0, 0, 0, 0, 0, 0]),
-        "C12" => g.rng.weighted(&[15, 5, 0, 0, 0, 10, 0, 10, 0, 0, 0, 60, 0]),
-        "C17" => g.rng.weighted(&[0, 10, 0, 0, 10, 15, 0, 0, 10, 45, 10, 0, 0]),
-        _ => g.rng.weighted(&[14, 14, 10, 14, 8, 12, 8, 7, 6, 4, 3, 4, 3]),
+        "C04" => g.rng.weighted(&[5, 5, 0, 10, 0, 10, 70, 0, 0, 0, 0, 0, 0, 0]),
+        "C15" => g.rng.weighted(&[5, 5, 5, 10, 0, 30, 35, 10, 0, 0, 0, 0, 0, 0]),
+        "C18" => g.rng.weighted(&[0, 0, 0, 0, 25, 10, 0, 0, 35, 0, 30, 0, 0, 0]),
+        "C09" => g.rng.weighted(&[5, 75, 0, 5, 0, 15, 0, 0, 0, 0, 0, 0, 0, 0]),
+        "C10" => g.rng.weighted(&[0, 0, 10, 0, 0, 20, 0, 70, 0, 0, 0, 0, 0, 0]),
+        "C11" => g.rng.weighted(&[0, 5, 60, 0, 0, 20, 0, 15, 0, 0, 0, 0, 0, 0]),
+        "C05" => g.rng.weighted(&[0, 30, 0, 30, 20, 20, 0, 0, 0, 0, 0, 0, 0, 1]),
+        "C12" => g.rng.weighted(&[15, 5, 0, 0, 0, 10, 0, 10, 0, 0, 0, 60, 0, 0]),
+        "C17" => g.rng.weighted(&[0, 10, 0, 0, 10, 15, 0, 0, 10, 45, 10, 0, 0, 0]),
+        _ => g.rng.weighted(&[14, 14, 10, 14, 8, 12, 8, 7, 6, 4, 3, 4, 3, 1]),
     };
     let known: Vec<EvSpec> = g.model.events.values().cloned().collect();
     let retr: Vec<B32> = g.model.retrievable.iter().copied().collect();
     match scenario {
         0 => {
-            // the same event submitted by every thread
-            let e = g.new_event();
+            // the same event submitted by every thread (now and then a large one)
+            let mut e = g.new_event();
+            if g.rng.chance(1, 5) {
+                let len = *g.rng.pick(&[4200usize, 17_000, 66_000]);
+                let seed = g.rng.next();
+                e.content = (0..len).map(|i| (seed.wrapping_mul(i as u64 + 11) >> 12) as u8).collect();
+            }
             for t in threads.iter_mut() {
                 t.push(Op::Store(e.clone()));
             }
@@ -810,6 +815,29 @@ pub fn generate(rs: u64, focus: &str) -> Trace {
                     e.kind = 1;
                     threads[t].push(Op::Store(e));
                 }
+            }
+        }
+        13 if g.rng.chance(1, 2) => {
+            // a scrape over more than a thousand events (pages of 512 / 1024 entries) while the
+            // newest and the oldest of them are removed: the answer is that of one state
+            let pk = g.authors[0];
+            let n = g.rng.range(1030, 1120) as usize;
+            let mut first = None;
+            let mut lastid = None;
+            for i in 0..n {
+                let e = EvSpec { id: g.rng.bytes32(), pk, kind: 1, at: crate::gen::T0 + 1000 + i as u64, tags: vec![], content: vec![(i & 0xff) as u8] };
+                if i == 0 {
+                    first = Some(e.id);
+                }
+                lastid = Some(e.id);
+                g_apply(&mut g, &e);
+                ops.push(Op::Store(e));
+            }
+            threads[0].push(Op::Query(QuerySpec::all_allowed()));
+            threads[1].push(Op::Remove(lastid.unwrap()));
+            threads[1].push(Op::Remove(first.unwrap()));
+            if nthreads > 2 {
+                threads[2].push(Op::Query(QuerySpec { authors: vec![pk], ..QuerySpec::all_allowed() }));
             }
         }
         8 => {
